@@ -53,8 +53,13 @@ def parse_enums(src_dir):
                     nxt = int(dm.group(1))
                 discr.append(nxt)
                 nxt += 1
+            info = {"variants": variants, "discr": discr if discr != list(range(len(discr))) else None}
+            stem = os.path.splitext(os.path.basename(fp))[0]
+            enums[stem + "::" + name] = info
             if name not in enums:
-                enums[name] = {"variants": variants, "discr": discr if discr != list(range(len(discr))) else None}
+                enums[name] = info
+            else:
+                enums.setdefault("__ambiguous", set()).add(name)
     return enums
 
 
